@@ -41,7 +41,9 @@ def history_case(draw):
         cols.append({"kind": kind, "bits": draw(st.lists(st.integers(0, 1), min_size=2 * n0, max_size=2 * n0)),
                      "at": draw(st.integers(0, 2 * n0 - 1))})
     u = [[draw(st.sampled_from(EFFECTS)) for _ in range(t)] for _ in range(p)]
-    beta = [draw(st.sampled_from([0.0, 1.5, -7.0, 100.0])) for _ in range(t)]
+    # q fixed-effect rows: the location of the genomic values is beta[0] + (1/q) * sum(beta[1:]) (the documented Xstar)
+    q = draw(st.sampled_from([1, 1, 2, 3]))
+    beta = [[draw(st.sampled_from([0.0, 1.5, -7.0, 100.0, -42.0])) for _ in range(t)] for _ in range(q)]
     steps = []
     nsteps = draw(st.integers(1, 6))
     for _ in range(nsteps):
@@ -109,12 +111,18 @@ def ref_limits(u, counts, d, loc):
 def check_history(case, ctx):
     p, t = case["p"], case["t"]
     u = numpy.array(case["u"], dtype="float64").reshape(p, t)
-    beta = numpy.array([case["beta"]], dtype="float64")
+    braw = case["beta"]
+    if braw and not isinstance(braw[0], list):
+        braw = [braw]                       # older replay files: one intercept row
+    beta = numpy.array(braw, dtype="float64")
+    q = beta.shape[0]
+    locvec = [float(beta[0, k]) + (1.0 / q) * math.fsum(float(beta[r, k]) for r in range(1, q)) for k in range(t)]
     model = DenseAdditiveLinearGenomicModel(beta=beta, u_misc=None, u_a=u,
                                             trait=numpy.array(["tr%d" % k for k in range(t)], dtype=object))
     unscale = case["unscale"]
-    loc = [float(b) if unscale else 0.0 for b in case["beta"]]
-    tol = 1e-9 * (1.0 + 2.0 * float(numpy.abs(u).sum()) + sum(abs(b) for b in case["beta"]))
+    loc = [locvec[k] if unscale else 0.0 for k in range(t)]
+    tol = 1e-9 * (1.0 + 2.0 * float(numpy.abs(u).sum()) + float(numpy.abs(beta).sum()))
+    ctx.label("fixed_effect_rows>1", q > 1)
     pop = gens.build_pgmat(founders(case), case["lay"])
     if not pop.is_grouped_vrnt():
         pop.group_vrnt()
